@@ -5,6 +5,7 @@ set -e
 cd "$(dirname "$0")"
 export CARGO_NET_OFFLINE=true
 mkdir -p work evidence/replay
+python3 tools/sites.py --write >/dev/null
 (cd coq && coq_makefile -f _CoqProject -o Makefile >/dev/null && make -j16 2>&1 | grep -v '^WARNING' | tail -5)
 python3 - <<'PY'
 import sys; sys.path.insert(0, "tools")
